@@ -291,7 +291,8 @@ func runCase(c *Case, d *driver, opts runOpts) (res caseResult) {
 					}
 					return opts.keepGoing
 				}
-				addF(finding{Step: step, Kind: "diverge", Clause: strings.Join(projs, "+"), Tags: *tags, Detail: describeDiff(io, mo, projs)})
+				addF(finding{Step: step, Kind: "diverge", Clause: strings.Join(projs, "+"), Tags: *tags, Detail: describeDiff(io, mo, projs),
+					Alt: strings.HasSuffix(mo.lines["G"], " 1")})
 				res.Cut = !opts.keepGoing
 				res.Diverged = true
 				// still run the monitors on this state
